@@ -96,8 +96,8 @@ public:
 	constexpr posit& operator=(char rhs)              { return integer_assign((long)rhs); }
 	constexpr posit& operator=(unsigned short rhs)    { return integer_assign((long)rhs); }
 	constexpr posit& operator=(unsigned int rhs)      { return integer_assign((long)rhs); }
-	constexpr posit& operator=(unsigned long rhs)     { return integer_assign((long)rhs); }
-	constexpr posit& operator=(unsigned long long rhs){ return integer_assign((long)rhs); }
+	constexpr posit& operator=(unsigned long rhs)     { return operator=((unsigned long long)rhs); }
+	constexpr posit& operator=(unsigned long long rhs){ return integer_assign(rhs > 0x7FFF'FFFF'FFFF'FFFFull ? 0x7FFF'FFFF'FFFF'FFFFll : (long long)rhs); }
 		      posit& operator=(float rhs)             { return float_assign(double(rhs)); }
 		      posit& operator=(double rhs)            { return float_assign(rhs); }
 		      posit& operator=(long double rhs)       { return float_assign(double(rhs)); }
